@@ -3,20 +3,22 @@ from vlib.runner import Tie
 from vlib import core
 
 ID = "C39"
-LEVEL = "proof"
+LEVEL = "partial"
 DESIGN_REF = "DESIGN.md section 5, C39"
 PROP_FILES = ["props/Properties_C39.v"]
 RULE = ("relay tie: scripts of mempool submissions (BroadcastTransaction), removals (expiry), blocks, SendMessages rounds (trickles) and GETDATA "
         "requests over up to 4 mock peers (outbound, inbound, inbound noban, inbound with the mempool permission) on the real PeerManager/mempool "
         "of a regtest node; compared: entry and mempool sequence numbers, m_last_inv_sequence of the peer after every round, and the answer "
-        "(tx / notfound) to every request, aimed at requests just before/after the peer's announcement snapshot. private-broadcast tie: scripts "
+        "(tx / notfound) to every request, aimed at requests just before/after the peer's announcement snapshot; every third script also submits "
+        "transactions with NO_MEMPOOL_PRIVATE_BROADCAST, opens private-broadcast connections (which tx is INVed), requests on them, and delivers the "
+        "tx back from the network. private-broadcast tie: scripts "
         "of Add/Remove/PickTxForSend/GetTxForNode/NodeConfirmedReception/DidNodeConfirmReception/HavePendingTransactions/GetStale on the real "
         "PrivateBroadcast with limits 1-3, node-id reuse, re-adds of exhausted transactions. non-trivial = at least 4 operations")
 ASSUMPTIONS = ["the mempool sequence counter (uint64) does not wrap (premise seq_ok of the relay theorems)",
                "the iteration order of PrivateBroadcast::m_transactions only matters for ties of max_element; the model accepts any maximal element",
                "whether a SendMessages round takes an announcement snapshot (queue not empty) is an input of the relay model; the theorems quantify over it",
-               "the PeerManager-level behaviour of private broadcast (NO_MEMPOOL_PRIVATE_BROADCAST keeps the tx out of the mempool; GETDATA on a "
-               "private-broadcast connection is answered only for the tx INVed on it) is not modelled: only the PrivateBroadcast queue is"]
+               "the PeerManager-level behaviour of private broadcast is tied (ptx / pconn / pget / recv operations of the relay tie) with the relay model and "
+               "the PrivateBroadcast model run side by side; ping/pong confirmation and the stale-rebroadcast timer are not exercised"]
 TRUSTED = ["Coq 8.16.1 kernel (coqc)", "tie/dump_params.cpp (+ tie/params/p2pd.h) prints PrivateBroadcast::MAX_TRANSACTIONS / MAX_SEND_ATTEMPTS",
            "extraction: ExtrOcamlBasic only; ocaml/conv.ml + txrelay_driver.ml / privbcast_driver.ml glue",
            "tie/p2pd_harness.h + txrelay_drv.cpp: regtest TestChain100Setup, ConnmanTestMsg mock peers, CaptureMessage hook, PeerManager registered as validation interface",
@@ -55,7 +57,7 @@ class HintTie(Tie):
         return out
 
 
-ARITY_R = {"peer": 1, "tx": 1, "rm": 1, "block": 0, "trickle": 1, "getdata": 2, "mpreq": 1}
+ARITY_R = {"peer": 1, "tx": 1, "rm": 1, "block": 0, "trickle": 1, "getdata": 2, "mpreq": 1, "ptx": 1, "recv": 2, "pconn": 0, "pget": 2}
 ARITY_P = {"t": 1, "add": 1, "rm": 1, "pick": 1, "get": 1, "conf": 1, "did": 1, "pend": 0, "stale": 0}
 
 
@@ -88,13 +90,38 @@ def gen_relay(rng, tier):
     for it in range(n):
         kinds = [rng.choice([0, 1, 2, 2, 3]) for _ in range(rng.choice([1, 2, 3, 4]))]
         ops = ["peer %d" % k for k in kinds]
-        np = len(kinds)
+        np = len(kinds)          # ordinary peers have indices 0..np-1; private-broadcast connections get the following indices
+        nconn = np
+        pconns = []
         ntx = 0
-        live = []
+        live = []                # in the mempool
+        confirmed = set()
+        private = []             # submitted for private broadcast
         trickles = 0
+        priv = (it % 3 == 0)     # every third script exercises private broadcast
         for _ in range(rng.choice([6, 10, 16, 24])):
             r = rng.random()
-            if r < 0.22 and ntx < 7:
+            if priv and r < 0.14 and ntx < 7:
+                ops.append("ptx %d" % ntx); private.append(ntx); ntx += 1
+                if rng.random() < 0.5:
+                    ops.append("getdata %d %d" % (rng.randrange(np), ntx - 1))      # ordinary peers must not get it
+            elif priv and r < 0.26:
+                ops.append("pconn"); pconns.append(nconn); nconn += 1
+                if private and rng.random() < 0.8:
+                    ops.append("pget %d %d" % (nconn - 1, rng.choice(private)))
+            elif priv and r < 0.32 and pconns and ntx > 0:
+                ops.append("pget %d %d" % (rng.choice(pconns), rng.randrange(ntx)))
+            elif priv and r < 0.40 and private:
+                i = rng.choice(private)
+                if i not in confirmed:
+                    ops.append("recv %d %d" % (rng.randrange(np), i))
+                    if i not in live: live.append(i)
+            elif priv and r < 0.44 and private:
+                i = rng.choice(private)
+                if i not in confirmed:
+                    ops.append("tx %d" % i)      # submitted without private broadcast
+                    if i not in live: live.append(i)
+            elif r < 0.55 and ntx < 7 and rng.random() < 0.5:
                 ops.append("tx %d" % ntx); live.append(ntx); ntx += 1
                 # the boundary: request right after admission, before and after the next snapshot
                 if rng.random() < 0.6:
@@ -103,21 +130,24 @@ def gen_relay(rng, tier):
                     if rng.random() < 0.7 and trickles < 9:
                         ops.append("trickle %d" % p); trickles += 1
                         ops.append("getdata %d %d" % (p, ntx - 1))
-            elif r < 0.45 and trickles < 9:
+            elif r < 0.62 and trickles < 9:
                 p = rng.randrange(np)
                 if kinds[p] == 3 and rng.random() < 0.5:
                     ops.append("mpreq %d" % p)
                 else:
                     ops.append("trickle %d" % p)
                 trickles += 1
-            elif r < 0.85 and ntx > 0:
+            elif r < 0.86 and ntx > 0:
                 ops.append("getdata %d %d" % (rng.randrange(np), rng.randrange(ntx)))
             elif r < 0.91 and live:
                 i = rng.choice(live); live.remove(i); ops.append("rm %d" % i)
             elif r < 0.96:
-                ops.append("block"); live = []
+                ops.append("block"); confirmed.update(live); live = []
             elif ntx > 0:
-                ops.append("tx %d" % rng.randrange(ntx))   # resubmission (already in mempool / already confirmed / removed earlier)
+                i = rng.randrange(ntx)
+                if i not in private:
+                    ops.append("tx %d" % i)   # resubmission (already in mempool / already confirmed / removed earlier)
+                    if i not in confirmed and i not in live: live.append(i)
         cases.append(" ".join(ops))
     return cases
 
@@ -173,7 +203,7 @@ LEVEL_TEXT = ("Coq theorems over all interleavings of mempool admissions/removal
               "PrivateBroadcast queue, over all operation sequences: at most max_transactions entries, at most max_send_attempts send statuses per "
               "transaction since its (re-)addition, a node id is recorded for at most one transaction, PickTxForSend returns a pending transaction "
               "of maximal priority or nothing. Both models are tied to the real code (PeerManager level for relay, class level for the queue).")
-LEVEL_NOTE = ("Trusted: Coq kernel, extraction + driver glue, the test harness. Not modelled: the inventory rate-limiting buckets and the trickle timers "
-              "(whether a round takes a snapshot is an input), bloom/fee filters, and the PeerManager-level private-broadcast paths "
-              "(BroadcastTransaction(NO_MEMPOOL_PRIVATE_BROADCAST), PushPrivateBroadcastTx, the GETDATA check on private-broadcast connections).")
+LEVEL_NOTE = ("Residue: that a private submission leaves the mempool alone and that a private-broadcast connection INVs exactly the picked transaction and serves only it are part of the model by construction (EPrivate does not touch the pool; pconn/pget use the PrivateBroadcast model) and are established for the real PeerManager by the correspondence (BroadcastTransaction(NO_MEMPOOL_PRIVATE_BROADCAST), private-broadcast connections, GETDATA on them, reception back from the network), not by a theorem about net_processing. Trusted: Coq kernel, extraction + driver glue, the test harness. Not modelled: the inventory rate-limiting buckets and the trickle timers "
+              "(whether a round takes a snapshot is an input), bloom/fee filters, and "
+              "the NodeConfirmedReception / stale-rebroadcast scheduling of private broadcast.")
 TECHNIQUE = "Coq proof (state-machine invariants by induction over event sequences) + differential correspondence on the real PeerManager / PrivateBroadcast"
